@@ -30,6 +30,7 @@ def main():
         head = sh(['git', '-C', '/repo', 'rev-parse', 'HEAD']).stdout.strip()
         sh(['git', '-C', wt, 'checkout', '-q', '--detach', head])
         sh(['git', '-C', wt, 'reset', '-q', '--hard', head])
+        subprocess.run(['cp', '/repo/Cargo.lock', os.path.join(wt, 'Cargo.lock')])
         patch = os.path.abspath(os.path.join(sd, 'patch.diff'))
         r = sh(['git', '-C', wt, 'apply', patch])
         if r.returncode:
